@@ -660,6 +660,26 @@ Proof.
     rewrite Hp1, Hp, <- Hp2. reflexivity.
 Qed.
 
+(* inserting a fresh name and removing it again restores the shard byte for byte *)
+Corollary ref_set_remove_roundtrip size lg (Hperm : permitted size lg) (H : bytes -> bytes)
+  (H_wf : forall k, wf_bytes (H k) = true) (H_len : forall k, length (H k) = 8%nat) fuel ops e t t' :
+  Forall (hop_ok H) ops -> entry_ok H e -> ~ In (e_name e) (map e_name (mrun ops)) ->
+  hrun lg fuel ops = Ok t -> hrun lg fuel (ops ++ [HSet e; HDel (e_name e) (H (e_name e))]) = Ok t' ->
+  serialize_node size HashMurmur3 (pad_len size) (BShard t') = serialize_node size HashMurmur3 (pad_len size) (BShard t).
+Proof.
+  intros Hops He Hfresh Hr Hr'.
+  assert (Hops' : Forall (hop_ok H) (ops ++ [HSet e; HDel (e_name e) (H (e_name e))])).
+  { apply Forall_app. split; [exact Hops|]. constructor; [exact He|]. constructor; [reflexivity|constructor]. }
+  apply (ref_history_independent size lg Hperm H H_wf H_len fuel fuel _ _ t' t Hops' Hops Hr' Hr).
+  unfold mrun. rewrite fold_left_app. cbn [fold_left mstep filter].
+  assert (Eo : other (e_name e) e = false) by (unfold other; rewrite bytes_eqb_refl; reflexivity).
+  rewrite Eo.
+  assert (Ef : filter (other (e_name e)) (fold_left mstep ops []) = fold_left mstep ops []).
+  { apply filter_all. intros x Hx. unfold other. destruct (bytes_eqb_spec (e_name x) (e_name e)) as [E|_]; [|reflexivity].
+    exfalso. apply Hfresh. rewrite <- E. apply in_map. exact Hx. }
+  rewrite Ef, Ef. apply Permutation_refl.
+Qed.
+
 (* non-vacuity: a history with a fork, a replacement, a removal that collapses a sub-shard and a removal of an absent name *)
 Definition demo_ops : list hop :=
   [HSet (demo_entry [65] 1); HSet (demo_entry [65; 1] 3); HSet (demo_entry [65; 1; 2] 5); HSet (demo_entry [66] 2);
